@@ -27,15 +27,17 @@ Plain    == {"x", "proj", "with space"}
 Parents  == Excluded \cup Markers \cup Plain
 
 Cwds      == {"root", "parent", "inside", "else", "checkout"}
-Spellings == {"absolute", "dot", "dotslash", "relative", "trailing", "dotdot"}
+\* mixedAbsRel: two path arguments in one invocation - the project directory spelled absolutely and its (empty)
+\* sub-directory spelled relatively from outside the project
+Spellings == {"absolute", "dot", "dotslash", "relative", "trailing", "dotdot", "mixedAbsRel"}
 
 \* which spellings make sense from which cwd, and whether the spelled path mentions <parent>
 Valid(c, s) == CASE c = "root"     -> s \in {"absolute", "dot", "dotslash", "dotdot"}
-                 [] c = "parent"   -> s \in {"absolute", "relative", "dotslash", "trailing"}
+                 [] c = "parent"   -> s \in {"absolute", "relative", "dotslash", "trailing", "mixedAbsRel"}
                  [] c = "inside"   -> s \in {"absolute", "dotdot"}
-                 [] c = "else"     -> s \in {"absolute", "dotdot"}
-                 [] c = "checkout" -> s \in {"absolute", "dotdot"}
-MentionsParent(c, s) == \/ s = "absolute"
+                 [] c = "else"     -> s \in {"absolute", "dotdot", "mixedAbsRel"}
+                 [] c = "checkout" -> s \in {"absolute", "dotdot", "mixedAbsRel"}
+MentionsParent(c, s) == \/ s \in {"absolute", "mixedAbsRel"}
                         \/ (c \in {"else", "checkout"} /\ s = "dotdot")
                         \/ (c = "root" /\ s = "dotdot")
 
